@@ -144,9 +144,14 @@ def add_objectives(ps, im, kinds, r):
             wa = ps.FixedDurationTask(name='WA', duration=3)
             wb = ps.FixedDurationTask(name='WB', duration=2)
             ps.TasksDontOverlap(task_1=wa, task_2=wb)
-            ps.Objective(name='RawEndWA', target=wa._end, weight=3, kind='minimize')
             ind = ps.IndicatorFromMathExpression(name='EndWB', expression=wb._end)
-            ps.ObjectiveMinimizeIndicator(target=ind, weight=1)
+            if r.random() < 0.5:
+                ps.Objective(name='RawEndWA', target=wa._end, weight=3, kind='minimize')
+                ps.ObjectiveMinimizeIndicator(target=ind, weight=1)
+            else:
+                # the dominating weight on the objective declared second
+                ps.ObjectiveMinimizeIndicator(target=ind, weight=1)
+                ps.Objective(name='RawEndWA', target=wa._end, weight=3, kind='minimize')
         elif k == 'multi_weighted':
             # weighted sum of a raw expression objective and an indicator objective
             ps.Objective(name='RawEnd', target=tasks[0]._end, weight=r.choice([2, 3]), kind='minimize')
@@ -165,6 +170,7 @@ def run_case(args):
     out = {'idx': idx, 'error': None}
     try:
         r = random.Random(seed * 7919 + idx)
+        case['_rseed'] = seed * 7919 + idx
         im = impl.Impl()
         res = im.run(case['prog'])
         if res[0] != 'ok':
@@ -236,6 +242,38 @@ def run_case(args):
 
 
 DONE = object()
+
+
+def builtin_value(case, several, z3):
+    """the value reached by optimizer='optimize' on the problem of the case, rebuilt from scratch: the single objective's
+    target, or the weighted sum written down from the declared weights; None = no solution, 'skip' = not comparable"""
+    import processscheduler as ps
+    import impl
+    try:
+        r = random.Random(case['_rseed'])
+        im = impl.Impl()
+        if im.run(case['prog'])[0] != 'ok':
+            return 'skip'
+        with contextlib.redirect_stdout(io.StringIO()), warnings.catch_warnings():
+            warnings.simplefilter('ignore')
+            add_objectives(ps, im, case['objs'], r)
+            kw = dict(optimize_priority='weight') if several else {}
+            solver = ps.SchedulingSolver(problem=im.pb, max_time=600, optimizer='optimize', **kw)
+            sol = solver.solve()
+        if sol is False or solver._model is None:
+            return None
+        objs = [o for o in im.pb.objectives.values() if o.name != 'MinimizeEquivalentObjective']
+        if not objs:
+            return 'skip'
+        if several:
+            if len({o.kind for o in objs}) > 1:
+                return 'skip'
+            expr = z3.Sum([o.weight * o._target for o in objs])
+        else:
+            expr = objs[0]._target
+        return solver._model.eval(expr, model_completion=True).as_long()
+    except Exception:
+        return 'skip'
 
 
 def solution_summary(s):
@@ -422,6 +460,7 @@ def analyse(out, case, solver, tasks, varlist, outs, marks, sp, z3):
                             else:
                                 s3.pop()
                                 break
+                        out['ref_weighted'] = b2
                         if final[0] == 'ret' and final[1] in models and answers.get(nchecks - 1) == 'unsat':
                             got2 = models[final[1]].eval(own, model_completion=True).as_long()
                             if got2 != b2:
@@ -443,6 +482,16 @@ def analyse(out, case, solver, tasks, varlist, outs, marks, sp, z3):
                     sem.append(('feasible-but-none', None, None))
             elif r0 == z3.unsat and final[0] == 'ret':
                 sem.append(('infeasible-but-solution', None, None))
+            # "the incremental and the built-in optimiser agree on that value": the same problem, built again from scratch,
+            # solved by z3.Optimize (weight mode when there are several objectives), against the reference optimum
+            if r0 == z3.sat and out.get('ref_opt') is not None and case.get('_rseed') is not None:
+                nobj = len([o2 for o2 in solver.problem.objectives.values() if o2.name != 'MinimizeEquivalentObjective'])
+                ref = out.get('ref_weighted') if nobj > 1 else out['ref_opt']
+                if ref is not None:
+                    got_b = builtin_value(case, nobj > 1, z3)
+                    out['builtin_value'] = got_b
+                    if got_b is not None and got_b != 'skip' and got_b != ref:
+                        sem.append(('builtin-optimizer-disagrees', got_b, ref))
         if mode == 'enumerate':
             # brute force: all distinct projections of the base
             s = base_check()
